@@ -47,6 +47,18 @@ def build(h, variant, site1, site2, backend='shared store'):
         i2 = topo.iface(h, c2, 'nic2-p1')
         ns = h.call(h.getattr(t, 'add_network_service'), name='br1', nstype=ServiceType.L2STS, interfaces=PList([sub, i2])
                     if h.mode == 'sym' else [sub, i2])
+    if variant == 'connected port with a sub-interface':
+        # the dedicated port is itself connected to the service AND carries a sub-interface
+        port = topo.iface(h, c1, 'nic1-p1')
+        h.call(h.getattr(port, 'add_child_interface'), name='sub1', labels=h.call(Labels, vlan='100'))
+        i2 = topo.iface(h, c2, 'nic2-p1')
+        ns = h.call(h.getattr(t, 'add_network_service'), name='br1', nstype=ServiceType.L2STS, interfaces=PList([port, i2])
+                    if h.mode == 'sym' else [port, i2])
+    if variant == 'service with a declared site':
+        # the only interface of a service that was given a site by its creator
+        i1 = topo.iface(h, c1, 'nic1-p1')
+        ns = h.call(h.getattr(t, 'add_network_service'), name='br1', nstype=ServiceType.L2Bridge, site=site1,
+                    interfaces=PList([i1]) if h.mode == 'sym' else [i1])
     if variant == 'direct link':
         # the two cards are wired port to port by a link (no service in between)
         i1 = topo.iface(h, c1, 'nic1-p1')
@@ -64,7 +76,8 @@ def iface_names(h, element):
     return sorted(str(h.getattr(i, 'name')) for i in topo.pylist(h.getattr(element, 'interface_list')))
 
 
-def make(opname, run, expected, variants=('plain', 'bridge', 'gpu+bridge', 'sub-interfaces', 'direct link'), handle_check=None):
+def make(opname, run, expected, variants=('plain', 'bridge', 'gpu+bridge', 'sub-interfaces', 'direct link', 'connected port with a sub-interface',
+                                          'service with a declared site'), handle_check=None):
     class Op(Contract):
         target = 'fim.user.topology:Topology.remove_node'
         props = ('C08',)
@@ -156,10 +169,10 @@ RemoveNode = make('RemoveNode', lambda h, t, n1, n2, c1, c2, ns: h.call(h.getatt
 RemoveComponent = make('RemoveComponent', lambda h, t, n1, n2, c1, c2, ns: h.call(h.getattr(n1, 'remove_component'), 'nic1'),
                        exp_remove_component, handle_check=fresh_node_ifaces)
 RemoveService = make('RemoveService', lambda h, t, n1, n2, c1, c2, ns: h.call(h.getattr(t, 'remove_network_service'), 'br1'),
-                     exp_remove_service, variants=('bridge', 'gpu+bridge'))
+                     exp_remove_service, variants=('bridge', 'gpu+bridge', 'service with a declared site'))
 DisconnectInterface = make('DisconnectInterface',
                            lambda h, t, n1, n2, c1, c2, ns: h.call(h.getattr(ns, 'disconnect_interface'), topo.iface(h, c1, 'nic1-p1')),
-                           exp_disconnect, variants=('bridge',), handle_check=fresh_service_ifaces)
+                           exp_disconnect, variants=('bridge', 'service with a declared site'), handle_check=fresh_service_ifaces)
 
 CONTRACTS = [RemoveNode, RemoveComponent, RemoveService, DisconnectInterface]
 
@@ -180,7 +193,8 @@ class RemoveChildInterface(Contract):
     cost = 30
 
     def inputs(self, g):
-        return [g.pick(['one sub-interface', 'two sub-interfaces'], 'shape'), g.atom('site1')], {}
+        return [g.pick(['one sub-interface', 'two sub-interfaces', 'the sub-interface is connected to a service'], 'shape'),
+                g.atom('site1')], {}
 
     def body(self, h, shape, site1):
         topo.fresh_world(h)
@@ -191,6 +205,10 @@ class RemoveChildInterface(Contract):
         h.call(h.getattr(port, 'add_child_interface'), name='sub1', labels=h.call(Labels, vlan='100'))
         if shape == 'two sub-interfaces':
             h.call(h.getattr(port, 'add_child_interface'), name='sub2', labels=h.call(Labels, vlan='200'))
+        if shape == 'the sub-interface is connected to a service':
+            sub = topo.iface(h, port, 'sub1')
+            h.call(h.getattr(t, 'add_network_service'), name='br1', nstype=ServiceType.L2Bridge,
+                   interfaces=PList([sub]) if h.mode == 'sym' else [sub])
         S0 = take(h, t)
         h.call(h.getattr(port, 'remove_child_interface'), name='sub1')
         S1 = take(h, t)
@@ -199,7 +217,8 @@ class RemoveChildInterface(Contract):
 
     ensures = {
         'delete.exactly_the_sub_interface': lambda pre, post: returned(post) and exactly_deleted(
-            post.result[0], post.result[1], set(find(post.result[0], 'ConnectionPoint', 'sub1'))),
+            post.result[0], post.result[1], set(find(post.result[0], 'ConnectionPoint', 'sub1')) | peering_artefacts(
+                post.result[0], set(find(post.result[0], 'ConnectionPoint', 'sub1')))),
         'handles.report_fresh_interfaces': lambda pre, post: returned(post) and post.result[2] is True,
     }
 
